@@ -374,7 +374,7 @@ def check_roundtrip(lc: LogCase, variant: str, cont: str, reader: Any, baseline_
         lc.render = [str(r) for r in recs]
         if len(lc.fwmap) != lc.n or len(set(lc.render)) != lc.n:
             raise Broken("harness: records of one log are not pairwise distinct")
-    elif ok:
+    elif ok and baseline_ok:
         idx = [lc.index_of(r) for r in recs]
         if idx != list(range(lc.n)):
             lc.violate(
@@ -793,7 +793,8 @@ PROFILES: dict[str, dict[str, Any]] = {
         "hr": {"plain": (ALL_THRESHOLDS, "all"), "*": ([None], "short")},
         "two_files": True,
     },
-    # quick tier: as "full", but hr on the prefix-stripped plain file with 4 instead of 10 thresholds
+    # quick tier (and length-4 sequences of the thorough tier): as "full", but hr on the prefix-stripped plain file
+    # with 4 instead of 10 thresholds
     "fullq": {
         "sweep": {"*": M.ALL_PRIOS},
         "hr": {"plain": (ALL_THRESHOLDS, "all"), "noprefix/plain": ([8, None, 4, 0], "all"), "*": ([None], "short")},
@@ -893,7 +894,7 @@ def items(tier: str, seed: int) -> list[tuple[Any, ...]]:
     j = 0
     for n in range(0, N + 1):
         for lv in itertools.product(M.LEVEL_NAMES, repeat=n):
-            out.append(("lvseq", list(lv), j, "fullq" if tier == "quick" else "full"))
+            out.append(("lvseq", list(lv), j, "full" if tier == "thorough" and n <= 3 else "fullq"))
             j += 1
     for level in M.LEVEL_NAMES:
         for tags_i in range(len(M.TAGS)):
